@@ -3,11 +3,6 @@ import CollectionsC.Base.Mem
 and the facts about `allocT`/`freeT` the pool and priority-queue proofs need. -/
 namespace CC.Mem
 
-/-- number of live blocks obtained through triple `t` -/
-def liveT (m : Mem) : Triple → Nat
-  | .conf => m.live
-  | .libc => m.liveLibc
-
 /-- number of live blocks obtained through the *other* triple -/
 def liveO (m : Mem) : Triple → Nat
   | .conf => m.liveLibc
